@@ -580,8 +580,35 @@ def c17_h7(ctx):
             rb = resets[0][2]
             if nm == "RecvTransaction" and not all(_dominates(f, rb, x) for x in f.return_blocks()):
                 yield bad("C17-H7", key, at(f, resets[0][1]), "the inactivity reset does not happen for every received PDU")
+            elif nm == "SendTransaction" and not _only_phase_bypass(ctx, f, {g[2] for g in resets}):
+                yield bad("C17-H7", key, at(f, resets[0][1]), "in the phase in which the sender's inactivity timer runs (after its EOF) the count is cleared for some received PDUs only: silent periods separated by the others add up to an inactivity fault")
             else:
                 yield ok("C17-H7", key, at(f, resets[0][1]), "reset_inactivity on reception")
+
+
+def _only_phase_bypass(ctx, f, rb):
+    """Every way round the reset is taken on the transaction phase alone (send_state != SendEof)."""
+    region = f.reachable(0)
+    can = {x for x in region if x in rb or (rb & f.reachable(x))}
+    if 0 not in can:
+        return False
+    byp = set()
+    for x in can:
+        if x in rb:
+            continue
+        for y, _l in f.succs(x):
+            if y in region and y not in can:
+                byp.add(y)
+    fl = Flow(ctx.prog, ctx.mods, f, lambda k: k[0] == "val" and k[1] == "self.send_state")
+    for y in byp:
+        for w in fl.at_term(y):
+            good = False
+            for k, (pos, vs) in w:
+                if k == ("val", "self.send_state") and ((pos and "SendEof" not in vs) or (not pos and "SendEof" in vs)):
+                    good = True
+            if not good:
+                return False
+    return True
 
 
 COUNTER = "cfdp_daemon::timer::Counter"
